@@ -184,7 +184,7 @@ def r2_policy_table(R, sh: SolverShape) -> None:
         shown = m if isinstance(m, str) else '<anything else>'
         if not st0:
             if isinstance(m, str):
-                R.violation(sh.q, f'policy-row-missing:{m}', f"errors='{m}' never reaches the non-finite branch (rejected or diverted before it)", where=sh.where(nf))
+                R.violation(sh.q, f'policy-row-missing:{m}', f"errors='{m}' never reaches the non-finite branch (rejected or diverted before it)", where=sh.where(nf), mismatch=True)
             continue
         this_pass = fl.reach(st0, avoid_nodes=[sh.loop.id])
         onward = fl.reach(st0)
@@ -351,11 +351,11 @@ def r4_exception_discipline(R, sh: SolverShape) -> None:
             tr = _in_try_body(par, call)
             if tr is None:
                 R.violation(sh.q, f'hook-not-in-try:{m}', f'self.{m}() is not inside a try block: its exceptions escape unwrapped',
-                            where=sh.where(n))
+                            where=sh.where(n), mismatch=True)
                 continue
             hs = [h for h in tr.handlers if h.type is not None and text(h.type).split('.')[-1] in ('Exception', 'BaseException')]
             if len(hs) != 1 or not hs[0].name:
-                R.violation(sh.q, f'hook-handler:{m}', f'self.{m}(): no single `except Exception as e` handler', where=sh.where(n))
+                R.violation(sh.q, f'hook-handler:{m}', f'self.{m}(): no single `except Exception as e` handler', where=sh.where(n), mismatch=True)
                 continue
             h = hs[0]
             rs = [x for x in h.body if isinstance(x, ast.Raise)]
@@ -466,7 +466,7 @@ def r6_filters(R, sh: SolverShape) -> None:
             call = sh.call_expr(n, m)
             w = _enclosing(par, call, ast.With)
             if w is None or not any(dotted(getattr(i.context_expr, 'func', i.context_expr)) == 'warnings.catch_warnings' for i in w.items):
-                R.violation(sh.q, f'filter-block:{m}', f'self.{m}() is not inside a `warnings.catch_warnings()` block', where=sh.where(n))
+                R.violation(sh.q, f'filter-block:{m}', f'self.{m}() is not inside a `warnings.catch_warnings()` block', where=sh.where(n), mismatch=True)
                 continue
             n_blocks += 1
             st = None
